@@ -91,6 +91,25 @@ def run(c, facts, tier):
             for p in ps:
                 for fld, kv in p.inserts:
                     c.ob("C10.key", "%s::%s" % (M, meth), "%s lookup key = insertion key [%s]" % (fld, (p.cond or "")[:50]), kv[0] in p.cond, "inserted under %s" % kv[0], nontrivial=False)
+    # C10.returned: on every path the printer handed back is the one registered under the key of THIS request
+    for M in (framed, plain):
+        if M is None:
+            continue
+        for meth in ("get_printer", "get_file_printer"):
+            fn = facts.fn(codegen.mgr_key(facts, M, meth))
+            for p in mgr.paths(facts, M, meth):
+                ret = p.ret
+                nm = next(iter(mgr.NAME.finditer(ret)), None)
+                ok, det = None, "returned value %s is not a generated printer name" % ret[:80]
+                if nm is not None and nm.kind == "print":
+                    idx = nm.idx[1:-1] if nm.idx.startswith("{") else nm.idx
+                    keys = [kv[0] for fld, kv in p.inserts if fld == "printers"]
+                    inserted = [kv[1] for fld, kv in p.inserts if fld == "printers"]
+                    viakey = "self.printers.get(" in idx and all("@%d" % i in idx for i in range(len(fn.params)))
+                    direct = idx in inserted and keys and all("@%d" % i in keys[0] for i in range(len(fn.params)))
+                    ok = bool(viakey or direct)
+                    det = "returns print:%s — %s" % (idx[:90], "the entry stored under the (destination, terminator) key of this request" if ok else "NOT derived from the key of this request: a printer registered for another (destination, terminator) pair can be handed out")
+                c.ob("C10.returned", "%s::%s" % (M, meth), "[%s]" % (p.cond or "unconditional")[:70], ok, det, witness="-fprint a.out -fprint0 a.out" if ok is False else None)
     # C10.one-index on the framed manager
     if framed:
         for meth in ("get_printer", "get_file_printer"):
